@@ -96,9 +96,9 @@ def finish(res: Result, seed: int = 0) -> int:
   # stale known findings are fine (defect repaired elsewhere) but are reported in the evidence
   stale = [k["key"] for (p, _), k in known_keys.items() if p == res.prop and not any(f.key() == k["key"] for f in res.findings)]
 
-  ev_dir = os.path.join(VERIF, "evidence")
+  ev_dir = os.environ.get("VERIF_EVIDENCE_DIR") or os.path.join(VERIF, "evidence")
   os.makedirs(ev_dir, exist_ok=True)
-  rp_dir = os.path.join(VERIF, "replay", res.prop)
+  rp_dir = os.path.join(os.environ.get("VERIF_REPLAY_DIR") or os.path.join(VERIF, "replay"), res.prop)
   wall = time.time() - res.t0
 
   code = 0
